@@ -462,6 +462,13 @@ func TestVerifDaemon(t *testing.T) {
 		})
 	}
 
+	if prop == "C18" {
+		scen("monitor-real", c18Real(r, dir))
+	}
+	if prop == "C12" {
+		scen("inconsistent-real", c12Real(r, dir))
+	}
+
 	if prop == "C07" {
 		scen("rs-real/normal", c07Real(r, dir, false))
 		scen("rs-real/unicast-only", c07Real(r, dir, true))
